@@ -17,6 +17,12 @@ G  TLC Gen_Backup_* enumerates every (flow, crash step) x (flow, crash step) beh
 V  The sequence of file states observed along each real execution is validated by TLC
         against Trace_Backup, which also prints, per observed state, what the statement
         demands and what the model predicts for a kill there.
+J  The journal dimension (Backup.tla: journal mode in every file header, the rollback journal
+        as a file, writes that spill before their commit, other start states than the
+        library's own closed database): Gen_Backup_J_* / MC_Backup_ideal_J / Demo_Backup_modekept;
+        the harness starts from a missing path, an existing empty file and a rollback-mode
+        database, runs one dedicated flow whose last overwrite (a few pages of ~0.75 MB) does
+        not fit SQLite's page cache, and observes the header's journal mode and <db>-journal.
 """
 from __future__ import annotations
 
@@ -35,9 +41,13 @@ from common import Outcome, tlc, pmap, Scratch
 PID = "C11"
 WD = 99
 TORN = 777
-DEVS = ["StaleWalKept", "BackupNotAtomic"]
+DEVS = ["StaleWalKept", "BackupNotAtomic", "JournalModeKept"]
+ORDER = ["ideal", "modekept", "stalewal", "notatomic", "asis"]  # most ideal first
 VARIANTS = {  # name -> (deviation list, Gen cfg)
     "ideal": ([], "Gen_Backup_ideal.cfg"),
+    # from the library's own database this variant never leaves WAL mode (it is the ideal one there): its
+    # table is generated for the other start kinds only (JVARIANTS)
+    "modekept": (["JournalModeKept"], None),
     "stalewal": (["StaleWalKept"], "Gen_Backup_stalewal.cfg"),
     "notatomic": (["BackupNotAtomic"], "Gen_Backup_notatomic.cfg"),
     "asis": (["StaleWalKept", "BackupNotAtomic"], "Gen_Backup_asis.cfg"),
@@ -52,7 +62,14 @@ FLOWDEF = {
     "BOBC": ["backup", "write", "backup", "close"],
     # a first backup taken while committed pages still sit in the write-ahead log
     "OBC": ["write", "backup", "close"],
+    # journal dimension: overwrite, backup, overwrite, an overwrite too large for SQLite's page cache
+    # (it spills before its commit), close
+    "OBOVC": ["write", "backup", "write", "bigwrite", "close"],
 }
+JFLOW = "OBOVC"
+# start kinds of the journal dimension (Backup!InitOf) and the generators of their tables
+JKINDS = ["zero", "basedel", "absent"]
+JVARIANTS = {"ideal": "Gen_Backup_J_ideal.cfg", "modekept": "Gen_Backup_J_modekept.cfg"}
 DBNAME = "pages.db"
 DEFAULT_TEMPLATES = {"Template:!", "Template:=", "Template:((", "Template:))"}
 
@@ -78,6 +95,39 @@ def override_pages(g: int) -> dict:
 
 
 GENS = [1, 3]
+# journal dimension: overwrite numbers of its own (Backup!GenId: run 1 -> 11, 12, 13; run 2 -> 14, 15, 16);
+# the third overwrite of a run is the big one
+JGENS = [11, 12, 13, 14, 15, 16]
+BIG_PAGES, BIG_LEN = 4, 750_000  # 3 MB: more than the page cache (2 MB), fewer than 1000 WAL frames
+
+
+def big_body(g: int, i: int) -> str:
+    unit = f"overwrite {g} big page {i}; "
+    return (unit * (BIG_LEN // len(unit) + 1))[:BIG_LEN]
+
+
+def jpages(g: int) -> dict:
+    d = override_pages(g)
+    if g % 3 == 1 and g > 10:  # 13, 16
+        for i in range(BIG_PAGES):
+            d[(f"Big{i}", 0)] = (big_body(g, i), "wikitext")
+    return d
+
+
+def _short(body):
+    """Large bodies are compared by digest."""
+    if body is not None and len(body) > 2000:
+        return f"#{len(body)}:{hashlib.sha1(body.encode()).hexdigest()}"
+    return body
+
+
+_SHORT: dict = {}
+
+
+def short_pages(g: int) -> dict:
+    if g not in _SHORT:
+        _SHORT[g] = {k: (_short(b), m) for k, (b, m) in (jpages(g) if g > 10 else override_pages(g)).items()}
+    return _SHORT[g]
 
 
 def concrete(S) -> dict:
@@ -85,7 +135,7 @@ def concrete(S) -> dict:
     if 0 in S:
         pages.update(BASE)
     for g in sorted(x for x in S if x not in (0, WD)):
-        pages.update(override_pages(g))
+        pages.update(short_pages(g))
     return pages
 
 
@@ -96,6 +146,9 @@ def _all_contents():
     for n in range(len(GENS) + 2):
         for sub in itertools.combinations([0] + GENS, n):
             res[json.dumps(sorted(concrete(sub).items()))] = sorted(sub)
+    for n in range(len(JGENS) + 2):
+        for sub in itertools.combinations([0] + JGENS, n):
+            res.setdefault(json.dumps(sorted(concrete(sub).items())), sorted(sub))
     return res
 
 
@@ -108,16 +161,30 @@ def decode(rows) -> list:
     for t, ns, body, model in rows:
         if t in DEFAULT_TEMPLATES:
             continue
-        d[(t, ns)] = (body, model)
+        d[(t, ns)] = (_short(body), model)
     return CONTENTS.get(json.dumps(sorted(d.items())), [TORN])
+
+
+def page_versions(rows) -> list:
+    """For a page table that is no union of complete overwrites: which overwrite numbers do its pages
+    come from (0 = base pages, -1 = a page of no version at all)?"""
+    seen = set()
+    for t, ns, body, model in rows:
+        if t in DEFAULT_TEMPLATES:
+            continue
+        v = (_short(body), model)
+        gs = [0] if BASE.get((t, ns)) == v else []
+        gs += [g for g in GENS + JGENS if short_pages(g).get((t, ns)) == v]
+        seen.add(max(gs) if gs else -1)
+    return sorted(seen)
 
 
 def write_overrides(root: Path) -> dict:
     """Override sources in both formats the library reads."""
     ov = {}
     (root / "ov").mkdir()
-    for g in GENS:
-        pages = override_pages(g)
+    for g in GENS + JGENS:
+        pages = jpages(g) if g > 10 else override_pages(g)
         if g % 4 == 1:  # JSON file, contains a template (analyze_and_overwrite_pages branch 1)
             p = root / "ov" / f"{g}.json"
             p.write_text(json.dumps({t: {"namespace_id": ns, "body": b, "model": m} for (t, ns), (b, m) in pages.items()}))
@@ -152,43 +219,69 @@ def _read_db(path: Path):
         return "corrupt", []
 
 
-def _file_state(path: Path, scratch: Path, with_wal: Path | None = None):
+JOURNAL_MAGIC = bytes.fromhex("d9d505f920a163d7")
+
+
+def _header_mode(path: Path) -> str:
+    """Journal mode stored in the database header (file format write/read version, bytes 18-19)."""
+    with open(path, "rb") as f:
+        h = f.read(20)
+    if len(h) < 20:
+        return "?"
+    return {(1, 1): "del", (2, 2): "wal"}.get((h[18], h[19]), "?")
+
+
+def _journal_state(path: Path) -> str:
+    """absent / cold (header not synced yet: SQLite ignores the file) / hot."""
     if not path.exists():
-        return {"st": "absent", "c": []}
+        return "absent"
+    with open(path, "rb") as f:
+        return "hot" if f.read(8) == JOURNAL_MAGIC else "cold"
+
+
+def _file_state(path: Path, scratch: Path, with_wal: Path | None = None, with_jrn: Path | None = None):
+    if not path.exists():
+        return {"st": "absent", "c": [], "m": "-"}
     if path.stat().st_size == 0:
-        return {"st": "zero", "c": []}
+        return {"st": "zero", "c": [], "m": "-"}
     shutil.rmtree(scratch, ignore_errors=True)
     scratch.mkdir()
     shutil.copy(path, scratch / "x.db")
     if with_wal is not None and with_wal.exists():
         shutil.copy(with_wal, scratch / "x.db-wal")
+    if with_jrn is not None and with_jrn.exists():
+        # main file + its rollback journal are one thing (SQLite rolls the copy back when the journal is hot)
+        shutil.copy(with_jrn, scratch / "x.db-journal")
+    mode = _header_mode(path)
     st, c = _read_db(scratch / "x.db")
-    return {"st": st, "c": c}
+    return {"st": st, "c": c, "m": mode if st == "db" else "-"}
 
 
 def observe(d: Path, scratch: Path) -> dict:
     main = d / DBNAME
     wal = d / (DBNAME + "-wal")
     shm = d / (DBNAME + "-shm")
+    jrn = d / (DBNAME + "-journal")
     bak = main.with_stem(main.stem + "_backup")
-    known = {main.name, wal.name, shm.name, bak.name}
+    known = {main.name, wal.name, shm.name, jrn.name, bak.name}
     others = sorted(p for p in d.iterdir() if p.name not in known)
-    m = _file_state(main, scratch)
+    m = _file_state(main, scratch, with_jrn=jrn)
     if m["st"] == "db":
-        vis = _file_state(main, scratch, with_wal=wal)["c"]
+        vis = _file_state(main, scratch, with_wal=wal, with_jrn=jrn)["c"]
     else:
         vis = []
     if not others:
-        tmp = {"st": "absent", "c": []}
+        tmp = {"st": "absent", "c": [], "m": "-"}
     elif len(others) == 1:
         tmp = _file_state(others[0], scratch)
     else:
-        tmp = {"st": "multi", "c": []}
+        tmp = {"st": "multi", "c": [], "m": "-"}
     return {
         "main": m,
         "wal": "absent" if not wal.exists() else ("empty" if wal.stat().st_size == 0 else "data"),
         "vis": vis,
         "shm": "present" if shm.exists() else "absent",
+        "jrn": _journal_state(jrn),
         "bak": _file_state(bak, scratch),
         "tmp": tmp,
     }
@@ -197,7 +290,8 @@ def observe(d: Path, scratch: Path) -> dict:
 def okey(o: dict) -> str:
     return json.dumps(
         [o["main"]["st"], sorted(o["main"]["c"]), o["wal"], sorted(o["vis"]), o["shm"],
-         o["bak"]["st"], sorted(o["bak"]["c"]), o["tmp"]["st"], sorted(o["tmp"]["c"])]
+         o["bak"]["st"], sorted(o["bak"]["c"]), o["tmp"]["st"], sorted(o["tmp"]["c"]),
+         o["main"]["m"], o["bak"]["m"], o["tmp"]["m"], o["jrn"]]
     )
 
 
@@ -207,6 +301,22 @@ def dirhash(d: Path) -> str:
         h.update(p.name.encode())
         h.update(b"\0")
         h.update(p.read_bytes())
+    return h.hexdigest()
+
+
+def dirsig(d: Path) -> str:
+    """Change detector for the line-by-line run of a flow that writes megabytes: content for small
+    files, (size, mtime) for large ones.  (A missed change only costs kill points around it: the
+    sweeps refine every gap whose ends differ in observed file state anyway.)"""
+    h = hashlib.sha1()
+    for p in sorted(d.iterdir()):
+        h.update(p.name.encode())
+        h.update(b"\0")
+        st = p.stat()
+        if st.st_size > 262144:
+            h.update(f"{st.st_size}:{st.st_mtime_ns}".encode())
+        else:
+            h.update(p.read_bytes())
     return h.hexdigest()
 
 
@@ -220,12 +330,22 @@ def _quiet():
 
 
 # library calls of a real flow -> number of model calls ("backup"/"write"/"close") each one performs
-FLOW_CALLS = {"BOC": [2, 1], "OC": [1, 1], "BC": [1, 1], "C": [1], "BOBC": [1, 1, 1, 1], "OBC": [1, 1, 1]}
+FLOW_CALLS = {"BOC": [2, 1], "OC": [1, 1], "BC": [1, 1], "C": [1], "BOBC": [1, 1, 1, 1], "OBC": [1, 1, 1],
+              "OBOVC": [1, 1, 1, 1, 1]}
 
 
-def real_flow(flow: str, db: Path, ov: str, mark=lambda: None) -> None:
+def ov_paths(ov: dict, flow: str, gen: int):
+    """Override source(s) of a flow whose first overwrite has number gen (one per overwrite call)."""
+    n = sum(1 for c in FLOWDEF[flow] if c in ("write", "bigwrite"))
+    return [ov[gen + i] for i in range(max(n, 1))]
+
+
+def real_flow(flow: str, db: Path, ov, mark=lambda: None) -> None:
     """mark() is called when the context is open and after every library call that returned
-    (progress marks: how far the process got, independent of the file states)."""
+    (progress marks: how far the process got, independent of the file states).
+    ov: override source of the flow's overwrite, or the list of them (one per overwrite call)."""
+    ovs = [ov] if isinstance(ov, str) else list(ov)
+    ov = ovs[0]
     from wikitextprocessor import Wtp
     from wikitextprocessor.dumpparser import analyze_and_overwrite_pages, process_dump
 
@@ -252,6 +372,15 @@ def real_flow(flow: str, db: Path, ov: str, mark=lambda: None) -> None:
         mark()
         w.backup_db()
         mark()
+    elif flow == "OBOVC":
+        analyze_and_overwrite_pages(w, [Path(ovs[0])], False, None)
+        mark()
+        w.backup_db()
+        mark()
+        analyze_and_overwrite_pages(w, [Path(ovs[1])], False, None)
+        mark()
+        analyze_and_overwrite_pages(w, [Path(ovs[2])], False, None)  # the big one
+        mark()
     elif flow != "C":
         raise ValueError(flow)
     w.close_db_conn()
@@ -264,7 +393,7 @@ def _pkg_dir() -> str:
     return os.path.dirname(os.path.abspath(wikitextprocessor.__file__)) + os.sep
 
 
-def fork_flow(flow: str, db: Path, ov: str, k: int):
+def fork_flow(flow: str, db: Path, ov, k: int):
     """Run the flow in a forked child; kill it before the k-th executed line of the
     package.  k <= 0: never kill; the child then reports the number of executed lines
     and the line indices before which the bytes of the database directory had changed
@@ -277,7 +406,8 @@ def fork_flow(flow: str, db: Path, ov: str, k: int):
             _quiet()
             pkg = _pkg_dir()
             cnt = [0]
-            last = [dirhash(db.parent) if k <= 0 else None]
+            dh = globals()["dirsig" if flow == JFLOW else "dirhash"]
+            last = [dh(db.parent) if k <= 0 else None]
             changes = []
 
             def local(frame, event, arg):
@@ -286,7 +416,7 @@ def fork_flow(flow: str, db: Path, ov: str, k: int):
                     if cnt[0] == k:
                         os._exit(137)
                     if k <= 0:
-                        h = dirhash(db.parent)
+                        h = dh(db.parent)
                         if h != last[0]:
                             last[0] = h
                             changes.append(cnt[0])
@@ -295,18 +425,21 @@ def fork_flow(flow: str, db: Path, ov: str, k: int):
             def glob(frame, event, arg):
                 return local if frame.f_code.co_filename.startswith(pkg) else None
 
+            marks_at = []
+
             def mark():
                 t = sys.gettrace()
                 sys.settrace(None)
+                marks_at.append(cnt[0])
                 os.write(w, b"P\n")
                 sys.settrace(t)
 
             sys.settrace(glob)
             real_flow(flow, db, ov, mark)
             sys.settrace(None)
-            if k <= 0 and dirhash(db.parent) != last[0]:
+            if k <= 0 and dh(db.parent) != last[0]:
                 changes.append(cnt[0] + 1)
-            os.write(w, json.dumps({"lines": cnt[0], "changes": changes}).encode())
+            os.write(w, json.dumps({"lines": cnt[0], "changes": changes, "marks_at": marks_at}).encode())
             os._exit(0)
         except BaseException as e:  # noqa  (the flow raised: the process dies here, no cleanup)
             try:
@@ -343,6 +476,8 @@ def fork_reopen(db: Path) -> dict:
                 ctx = Wtp(db_path=str(db), quiet=True)
                 rows = [(p.title, p.namespace_id, p.body, p.model) for p in ctx.get_all_pages()]
                 res["content"] = decode(rows)
+                if res["content"] == [TORN]:
+                    res["page_versions"] = page_versions(rows)
                 res["npages"] = len(rows)
                 res["integrity"] = [x[0] for x in ctx.db_conn.execute("PRAGMA integrity_check")]
                 res["error"] = None
@@ -361,6 +496,23 @@ def fork_reopen(db: Path) -> dict:
     os.close(r)
     os.waitpid(pid, 0)
     return json.loads(data.decode())
+
+
+def build_jstarts(root: Path, s0: Path) -> dict:
+    """Start states of the journal dimension (Backup!InitOf): an existing zero-length file, a path that
+    does not exist, the base database with 'rollback journal' in its header (as another tool or an
+    older version would have left it)."""
+    z, a, dl = root / "SZ", root / "SA", root / "SD"
+    z.mkdir()
+    (z / DBNAME).touch()
+    a.mkdir()
+    shutil.copytree(s0, dl)
+    con = sqlite3.connect(str(dl / DBNAME))
+    con.execute("PRAGMA journal_mode=DELETE").fetchall()
+    con.close()
+    if _header_mode(dl / DBNAME) != "del" or sorted(p.name for p in dl.iterdir()) != [DBNAME]:
+        raise RuntimeError("could not build the rollback-mode start state")
+    return {"zero": z, "absent": a, "basedel": dl}
 
 
 def build_base(d: Path) -> None:
@@ -410,7 +562,7 @@ def exec_tasks(chunk):
             work = wd / "d"
             shutil.rmtree(work, ignore_errors=True)
             shutil.copytree(st["dir"], work)
-            rc, msg, marks = fork_flow(flow, work / DBNAME, ov[gen], k)
+            rc, msg, marks = fork_flow(flow, work / DBNAME, ov_paths(ov, flow, gen), k)
             r = {"sid": sid, "flow": flow, "k": k, "rc": rc, "msg": "", "marks": marks}
             if rc not in (0, 3, 137):
                 raise RuntimeError(f"child running flow {flow} ended with status {rc}")
@@ -418,7 +570,7 @@ def exec_tasks(chunk):
                 info = json.loads(msg)
                 r["msg"] = info.get("error", "")
                 if k <= 0:
-                    r.update(lines=info["lines"], changes=info["changes"])
+                    r.update(lines=info["lines"], changes=info["changes"], marks_at=info.get("marks_at", []))
             h = dirhash(work)
             if st.get("hash") == h and st.get("result"):
                 cache[h] = st["result"]
@@ -468,9 +620,11 @@ def count_lines(root: Path, starts, ov, sid, flow, gen):
 class Sweep:
     """All kill points of one flow from one start state."""
 
-    def __init__(self, sid, flow, gen, K, changes=()):
+    def __init__(self, sid, flow, gen, K, changes=(), stride=None, marks_at=()):
         self.sid, self.flow, self.gen, self.K = sid, flow, gen, K
         self.changes = list(changes)  # line indices before which the directory bytes had changed
+        self.stride = stride          # own stride (None: the one of the run)
+        self.marks_at = list(marks_at)  # line counts at the progress marks (open done, call 1 returned, ...)
         self.res: dict[int, dict] = {}
 
     def seq(self):
@@ -492,19 +646,26 @@ def run_sweeps(root, starts, ov, sweeps: list[Sweep], stride: int):
     _G.update(root=str(root), starts=starts, ov=ov)
     tasks = []
     for i, sw in enumerate(sweeps):
-        ks = set(list(range(1, sw.K + 2, stride)) + [sw.K, sw.K + 1])
+        st_ = sw.stride or stride
+        if isinstance(st_, tuple):  # (stride while the context is being opened, stride of the calls after it)
+            m0 = sw.marks_at[0] if sw.marks_at else 0
+            ks = set(list(range(1, m0 + 1, st_[0])) + list(range(m0 + 1, sw.K + 2, st_[1])) + [sw.K, sw.K + 1])
+        else:
+            ks = set(list(range(1, sw.K + 2, st_)) + [sw.K, sw.K + 1])
         for c in sw.changes:  # both sides of every step boundary
             ks.update(x for x in (c - 1, c, c + 1) if 1 <= x <= sw.K + 1)
         ks = sorted(ks)
         tasks += [(i, k) for k in ks]
 
     def run(tl):
+        # the costly tasks first (the flow that writes megabytes): the parallel map hands out chunks in order
+        tl.sort(key=lambda ik: 0 if sweeps[ik[0]].flow == JFLOW else 1)
         out = pmap(exec_tasks, [(sweeps[i].sid, sweeps[i].flow, sweeps[i].gen, k, None) for i, k in tl])
         for (i, k), r in zip(tl, out):
             sweeps[i].res[k] = r
 
     run(tasks)
-    if stride > 1:
+    if stride > 1 or any(sw.stride and sw.stride != 1 for sw in sweeps):
         while True:
             fill = []
             for i, sw in enumerate(sweeps):
@@ -520,28 +681,66 @@ def run_sweeps(root, starts, ov, sweeps: list[Sweep], stride: int):
 # ---------------------------------------------------------------------------
 # TLC side
 # ---------------------------------------------------------------------------
-def gen_tables(o: Outcome):
-    """variant -> {chain key -> [case]}; chain key = ((flow, obskey), ...)."""
-    tabs = {}
-    for name, (devs, cfg) in VARIANTS.items():
-        r = tlc("Gen_Backup", cfg, workers=1, timeout=900)
-        o.add_tlc("Gen_" + name, r)
-        t: dict = {}
-        for c in r.cases:
-            key = tuple((run["flow"], okey(run["obs"])) for run in c["runs"])
-            t.setdefault(key, []).append(c)
-        tabs[name] = t
+def tlc_many(jobs: list):
+    """[(name, module, cfg, kwargs)] -> {name: TLCResult}; independent TLC runs side by side."""
+    from concurrent.futures import ThreadPoolExecutor
+
+    with ThreadPoolExecutor(max_workers=min(8, len(jobs))) as ex:
+        futs = [(name, ex.submit(tlc, mod, cfg, **kw)) for name, mod, cfg, kw in jobs]
+        return {name: f.result() for name, f in futs}
+
+
+def _table(r):
+    t: dict = {}
+    for c in r.cases:
+        key = tuple((run["flow"], okey(run["obs"])) for run in c["runs"])
+        t.setdefault((c["start"], key), []).append(c)
+    return t
+
+
+def gen_tables(o: Outcome, journal: bool = True):
+    """kind of start state -> variant -> {chain key -> [case]}; chain key = ((flow, obskey), ...)."""
+    jobs = [("Gen_" + name, "Gen_Backup", cfg, dict(workers=1, timeout=900)) for name, (devs, cfg) in VARIANTS.items() if cfg]
+    if journal:
+        jobs += [("Gen_J_" + name, "Gen_Backup", cfg, dict(workers=1, timeout=900)) for name, cfg in JVARIANTS.items()]
+    res = tlc_many(jobs)
+    tabs: dict = {"base": {}}
+    for kind in JKINDS:
+        tabs[kind] = {v: {} for v in VARIANTS}
+    for name, _mod, _cfg, _kw in jobs:
+        r = res[name]
+        o.add_tlc(name, r)
+        for (start, key), cases in _table(r).items():
+            v = name[6:] if name.startswith("Gen_J_") else name[4:]
+            tabs.setdefault(start, {}).setdefault(v, {})[key] = cases
+    for v in VARIANTS:
+        tabs["base"].setdefault(v, {})
     return tabs
 
 
-def validate_traces(o: Outcome, traces: list, variant: str, name: str):
-    """-> (done: {tid: [..]}, pred: {(tid, oi): [..]})"""
+def validate_traces_all(o: Outcome, traces: list, variants: list, prefix: str = "Trace_"):
+    """Every variant of the model against the same traces (independent TLC runs, side by side)."""
+    from concurrent.futures import ThreadPoolExecutor
+
+    with ThreadPoolExecutor(max_workers=min(6, len(variants))) as ex:
+        futs = [(v, ex.submit(validate_traces, None, traces, v, prefix + v)) for v in variants]
+        out = {}
+        for v, f in futs:
+            r, done, pred = f.result()
+            o.add_tlc(prefix + v, r)
+            out[v] = (done, pred)
+    return out
+
+
+def validate_traces(o: Outcome | None, traces: list, variant: str, name: str):
+    """-> (done: {tid: [..]}, pred: {(tid, oi): [..]})  (o is None: -> (TLCResult, done, pred))"""
     with Scratch("c11t-") as d:
         tf = d / "trace.json"
         tf.write_text(json.dumps({"dev": VARIANTS[variant][0], "flowdef": FLOWDEF, "traces": traces}))
         cfg = "SPECIFICATION TSpec\nINVARIANT Verdict\nCHECK_DEADLOCK FALSE\n"
         r = tlc("Trace_Backup", "trace.cfg", cfg_text=cfg, workers=1, env={"TRACE_FILE": str(tf)}, timeout=1800)
-    o.add_tlc(name, r)
+    if o is not None:
+        o.add_tlc(name, r)
     done: dict = {}
     pred: dict = {}
     for x in r.tagged("DONE"):
@@ -549,14 +748,16 @@ def validate_traces(o: Outcome, traces: list, variant: str, name: str):
         pred.setdefault((x["tid"], "done"), []).append(x)
     for x in r.tagged("PRED"):
         pred.setdefault((x["tid"], x["oi"]), []).append(x)
+    if o is None:
+        return r, done, pred
     return done, pred
 
 
-def make_trace(tid, prefix_runs, sw: Sweep):
+def make_trace(tid, prefix_runs, sw: Sweep, kind: str = "base"):
     seq, idx = sw.seq()
     last_k = max(sw.res)
     killed = sw.res[last_k]["rc"] != 0  # killed, or died from an exception of the flow
-    return {"tid": tid, "runs": prefix_runs + [{"flow": sw.flow, "obs": seq, "killed": bool(killed)}]}, idx
+    return {"tid": tid, "start": kind, "runs": prefix_runs + [{"flow": sw.flow, "obs": seq, "killed": bool(killed)}]}, idx
 
 
 # ---------------------------------------------------------------------------
@@ -580,17 +781,21 @@ def judge(o: Outcome, case: dict, real: dict, cands: list, tabs: dict, chain_key
         return "ok"
     exp = sorted(cands[0]["expected"])
     why = (
-        f"a new Wtp(db_path) after the kill yields content {describe(real['content'])}"
+        f"a new Wtp(db_path) after the kill yields content {describe(real['content'], real.get('page_versions'))}"
         f"{'' if integ_ok else ' (integrity_check: ' + str(real['integrity'] or real['error']) + ')'}; "
-        f"the statement demands {describe(exp)}"
+        f"the statement demands {describe(exp)}" + side_files_note(case.get("files"))
     )
     # which deviations of the model explain it?  smallest Dev whose model has this
     # chain of observed file states and predicts exactly the real content
-    order = ["ideal", "stalewal", "notatomic", "asis"]
     explained = None
-    for v in order:
-        for c in tabs[v].get(chain_key, []):
+    for v in ORDER:
+        for c in tabs.get(v, {}).get(chain_key, []):
             if sorted(c["pred"]) == rc and sorted(c["expected"]) != rc:
+                explained = VARIANTS[v][0]
+                break
+            if v == "modekept" and not c["sound"] and sorted(c["expected"]) != rc:
+                # the model only says "pre-images of another database are written over the restored
+                # file": any content but the demanded one is explained by it
                 explained = VARIANTS[v][0]
                 break
         if explained is not None:
@@ -610,7 +815,7 @@ def coarse_candidates(tabs: dict, chain_prefix, flow: str, marks: int):
     calls had returned, the process was done)."""
     calls = FLOW_CALLS[flow]
     out = []
-    for key, cases in tabs["ideal"].items():
+    for key, cases in tabs.get("ideal", {}).items():
         if len(key) != len(chain_prefix) + 1 or tuple(key[:-1]) != tuple(chain_prefix) or key[-1][0] != flow:
             continue
         for c in cases:
@@ -632,9 +837,24 @@ def coarse_candidates(tabs: dict, chain_prefix, flow: str, marks: int):
     return out
 
 
-def describe(c):
+def side_files_note(obs) -> str:
+    """What lay beside the database when the process died, where it is not what a WAL database leaves."""
+    if not obs:
+        return ""
+    notes = []
+    if obs.get("jrn", "absent") != "absent":
+        notes.append(f"a {obs['jrn']} rollback journal {DBNAME}-journal lay beside the database")
+    if obs["main"].get("m") == "del":
+        notes.append("the database header says rollback-journal mode, not WAL")
+    return ("; when the process died " + " and ".join(notes)) if notes else ""
+
+
+def describe(c, versions=None):
     c = list(c)
     if TORN in c:
+        if versions:
+            return "<no complete page set: pages from " + ", ".join(
+                "no version at all" if x < 0 else "the base pages" if x == 0 else f"overwrite #{x}" for x in versions) + ">"
         return "<no complete page set>"
     p = pages_of(c)
     if not p:
@@ -643,6 +863,11 @@ def describe(c):
 
 
 # ---------------------------------------------------------------------------
+# quick strides of the journal-dimension sweeps (while the context is opened, during the calls after it);
+# every line around each change of the files is killed in addition, every gap whose ends differ is filled
+JSTRIDE1, JSTRIDE2, JSTRIDE_OPEN = (96, 16), (192, 48), 32
+
+
 def real_sweeps(thorough: bool, o: Outcome | None = None, flows1=None):
     """Phase A (before any TLC output is loaded: the process must stay small, it forks a
     lot): level-1 and level-2 kill sweeps of the real flows."""
@@ -652,43 +877,70 @@ def real_sweeps(thorough: bool, o: Outcome | None = None, flows1=None):
         (root / "states").mkdir()
         ov = write_overrides(root)
         build_base(root / "S0")
-        starts = {0: {"dir": str(root / "S0"), "chain": [], "runs": []}}
+        starts = {0: {"dir": str(root / "S0"), "chain": [], "runs": [], "kind": "base"}}
         start_result(root, starts, ov, 0)
         base_key = okey(starts[0]["result"]["obs"])
         flows = list(flows1 or FLOWDEF)
+        if not flows1:
+            flows.remove(JFLOW)
         # ---------------- level 1: every line of every flow from the clean database
-        sweeps1 = [Sweep(0, f, GENS[0], *count_lines(root, starts, ov, 0, f, GENS[0])) for f in flows]
+        plan1 = [(0, f, GENS[0], None) for f in flows]
+        if not flows1 and not os.environ.get("C11_TIMING_NOJ"):
+            # journal dimension: the dedicated flow from an existing empty file and from a rollback-mode
+            # database; the plain open of a path that does not exist yet
+            for kind, d in build_jstarts(root, root / "S0").items():
+                sid = {"zero": "Z", "basedel": "D", "absent": "A"}[kind]
+                starts[sid] = {"dir": str(d), "chain": [], "runs": [], "kind": kind}
+                start_result(root, starts, ov, sid)
+            js = None if thorough else JSTRIDE1
+            plan1 += [("Z", JFLOW, JGENS[0], js), ("D", JFLOW, JGENS[0], js), ("A", "C", JGENS[0], None if thorough else JSTRIDE_OPEN)]
+        _G.update(root=str(root), starts=starts, ov=ov)
+        counts = pmap(exec_tasks, [(sid, f, g, 0, None) for sid, f, g, _ in plan1])
+        sweeps1 = [Sweep(sid, f, g, c["lines"], c["changes"], stride=s_, marks_at=c["marks_at"])
+                   for (sid, f, g, s_), c in zip(plan1, counts)]
         run_sweeps(root, starts, ov, sweeps1, 1 if thorough or flows1 else 4)
         if flows1:
             return starts, sweeps1, [], base_key
         # ---------------- level 2: start from every distinct state a first run can leave
         reps: dict = {}
         for sw in sweeps1:
+            if sw.sid not in (0, "A"):
+                continue
             seq, idx = sw.seq()
+            own = okey(starts[sw.sid]["result"]["obs"])
             for k in sorted(sw.res):
                 ok_ = okey(sw.res[k]["obs"])
-                key = (sw.flow, ok_) if thorough else ("*", ok_)
-                if key not in reps and ok_ != base_key:
+                key = (sw.sid, sw.flow, ok_) if thorough else (sw.sid, "*", ok_)
+                if key not in reps and ok_ != own:
                     reps[key] = (sw, k, idx[k], seq)
         keep_tasks = []
-        for n, (key, (sw, k, oi, seq)) in enumerate(sorted(reps.items(), key=lambda kv: (kv[1][0].flow, kv[1][1])), start=1):
+        nb = nj = 0
+        for key, (sw, k, oi, seq) in sorted(reps.items(), key=lambda kv: (str(kv[1][0].sid), kv[1][0].flow, kv[1][1])):
+            if sw.sid == 0:
+                nb += 1
+                n = nb
+            else:
+                nj += 1
+                n = f"A{nj}"
             keep_tasks.append((n, sw, k, oi, seq, root / "states" / str(n)))
         _G.update(root=str(root), starts=starts, ov=ov)
-        kept = pmap(exec_tasks, [(0, sw.flow, sw.gen, k, str(d)) for (n, sw, k, oi, seq, d) in keep_tasks])
+        kept = pmap(exec_tasks, [(sw.sid, sw.flow, sw.gen, k, str(d)) for (n, sw, k, oi, seq, d) in keep_tasks])
         for (n, sw, k, oi, seq, d), r in zip(keep_tasks, kept):
             if okey(r["obs"]) != okey(sw.res[k]["obs"]):
                 raise RuntimeError("kill point not reproducible: " + json.dumps([sw.flow, k, r["obs"], sw.res[k]["obs"]]))
             starts[n] = {
-                "dir": str(d), "hash": dirhash(d), "result": r,
+                "dir": str(d), "hash": dirhash(d), "result": r, "kind": starts[sw.sid]["kind"],
                 "chain": [(sw.flow, okey(r["obs"]))],
                 "runs": [{"flow": sw.flow, "obs": seq[:oi], "killed": r["rc"] != 0}],
             }
         flows2 = flows if thorough else ["BOC", "C", "OC"]
-        pairs = [(n, f) for n in sorted(x for x in starts if x != 0) for f in flows2]
-        counts = pmap(exec_tasks, [(n, f, GENS[1], 0, None) for n, f in pairs])
+        js = None if thorough else JSTRIDE2
+        plan2 = [(n, f, GENS[1], None) for n in sorted(x for x in starts if isinstance(x, int) and x != 0) for f in flows2]
+        plan2 += [(n, JFLOW, JGENS[3], js) for n in sorted(x for x in starts if isinstance(x, str) and x[1:].isdigit())]
+        counts = pmap(exec_tasks, [(n, f, g, 0, None) for n, f, g, _ in plan2])
         sweeps2 = []
-        for (n, f), c in zip(pairs, counts):
-            sweeps2.append(Sweep(n, f, GENS[1], c["lines"], c["changes"]))
+        for (n, f, g, s_), c in zip(plan2, counts):
+            sweeps2.append(Sweep(n, f, g, c["lines"], c["changes"], stride=s_, marks_at=c["marks_at"]))
         run_sweeps(root, starts, ov, sweeps2, 1 if thorough else 24)
         for st in starts.values():
             st.pop("dir", None)
@@ -703,48 +955,79 @@ def run(tier: str) -> int:
         "executed line of the package in the child process (level 1 and thorough level 2) or a stride plus every "
         "line between two stride points whose file states differ (quick level 2), plus the exit after the last line; "
         "distinct = distinct (chain of flows, chain of observed file states); non-trivial = some file differs from "
-        "the clean initial database"
+        "the clean initial database | journal dimension: the same from three more start states (existing empty file, "
+        "rollback-mode database, missing path) with one dedicated flow (overwrite, backup, overwrite, an overwrite "
+        "larger than SQLite's page cache, close; quick: a stride + every line around each file-state change) and, from "
+        "every state a killed first open of a missing path leaves, that flow again"
     )
     o.assumptions = [
         "kill = process exit without cleanup at Python line granularity (no power loss, no torn sector writes)",
-        "database small enough that SQLite does not auto-checkpoint during a flow",
+        "database small enough that SQLite does not auto-checkpoint during a flow (the big overwrite: "
+        "3 MB = more than the default page cache, fewer than 1000 WAL frames)",
         "SQLite as shipped with /venv python; TLC 1.8",
     ]
     # ---- real executions first (the forking process must stay small)
+    import time
+    ph, t_ph = {}, [time.time()]
+
+    def phase(name):
+        ph[name] = round(time.time() - t_ph[0], 1)
+        t_ph[0] = time.time()
+
+    o.extra["phase_s"] = ph
     starts, sweeps1, sweeps2, base_key = real_sweeps(thorough, o)
-    flows2 = sorted({sw.flow for sw in sweeps2})
-    o.extra["kill_points_level1"] = {sw.flow: len(sw.res) for sw in sweeps1}
-    o.extra["level2"] = {"start_states": len(starts) - 1, "sweeps": len(sweeps2), "kill_points": sum(len(sw.res) for sw in sweeps2)}
-    # ---- M
-    r = tlc("MC_Backup", "MC_Backup_ideal_T.cfg" if thorough else "MC_Backup_ideal.cfg", workers=16, timeout=1800, coverage=True)
+    phase("real_sweeps")
+    kind_of = lambda sw: starts[sw.sid]["kind"]  # noqa: E731
+    flows2 = sorted({sw.flow for sw in sweeps2 if kind_of(sw) == "base"})
+    o.extra["kill_points_level1"] = {(sw.flow if kind_of(sw) == "base" else kind_of(sw) + ":" + sw.flow): len(sw.res) for sw in sweeps1}
+    base2 = [sw for sw in sweeps2 if kind_of(sw) == "base"]
+    o.extra["level2"] = {"start_states": sum(1 for x in starts if isinstance(x, int) and x != 0), "sweeps": len(base2),
+                         "kill_points": sum(len(sw.res) for sw in base2)}
+    j2 = [sw for sw in sweeps2 if kind_of(sw) != "base"]
+    o.extra["journal_dimension"] = {
+        "level1_kill_points": {kind_of(sw) + ":" + sw.flow: len(sw.res) for sw in sweeps1 if kind_of(sw) != "base"},
+        "level2": {"start_states": len(j2), "kill_points": sum(len(sw.res) for sw in j2)},
+    }
+    # ---- M  (independent TLC runs side by side)
+    demos = (("Demo_Backup_stalewal.cfg", "stale -wal"), ("Demo_Backup_notatomic.cfg", "non-atomic backup"), ("Demo_Backup_asis.cfg", "as-is"),
+             ("Demo_Backup_modekept.cfg", "journal mode kept / rollback journal survives the restore"))
+    jobs = [("MC_ideal", "MC_Backup", "MC_Backup_ideal_T.cfg" if thorough else "MC_Backup_ideal.cfg", dict(workers=16, timeout=1800, coverage=True)),
+            ("MC_ideal_J", "MC_Backup", "MC_Backup_ideal_J.cfg", dict(workers=8, timeout=1800, coverage=True))]
+    jobs += [(demo[:-4], "MC_Backup", demo, dict(workers=4, check=False)) for demo, _ in demos]
+    jobs += [("Demo_Backup_asis_cov", "MC_Backup", "Demo_Backup_asis.cfg", dict(workers=4, check=False, coverage=True, extra=["-continue"]))]
+    mres = tlc_many(jobs)
+    r = mres["MC_ideal"]
     o.add_tlc("MC_ideal", r)
+    o.add_tlc("MC_ideal_J", mres["MC_ideal_J"])
     cov = {k: v[1] for k, v in r.coverage_actions().items()}
-    for demo, inv in (("Demo_Backup_stalewal.cfg", "stale -wal"), ("Demo_Backup_notatomic.cfg", "non-atomic backup"), ("Demo_Backup_asis.cfg", "as-is")):
-        d = tlc("MC_Backup", demo, workers=4, check=False)
+    for k, v in mres["MC_ideal_J"].coverage_actions().items():  # journal dimension: V1, V2, the other start kinds
+        cov[k] = cov.get(k, 0) + v[1]
+    for demo, inv in demos:
+        d = mres[demo[:-4]]
         o.add_tlc(demo[:-4], d)
         o.extra.setdefault("demo_counterexample_found", {})[demo[:-4]] = bool(d.invariant_violated)
         if not d.invariant_violated:
             raise common.TLCError(f"{demo} no longer shows the {inv} counterexample (vacuity guard)")
-    d = tlc("MC_Backup", "Demo_Backup_asis.cfg", workers=4, check=False, coverage=True, extra=["-continue"])
+    d = mres["Demo_Backup_asis_cov"]
     cov["B1"] = d.coverage_actions().get("B1", (0, 0))[1]  # B1 exists only in the unrepaired design
     o.extra["action_coverage"] = cov
     never = [a for a, n in cov.items() if n == 0]
     if never:
         o.extra["vacuity_warning"] = never
+    phase("tlc_mc_demos")
     tabs = gen_tables(o)
+    phase("tlc_gen")
     # ---- V: which variant of the model is this tree?  (file-state sequences validated by TLC)
     traces, idxs = [], []
     for sw in sweeps1 + sweeps2:
-        tr, idx = make_trace(len(traces) + 1, starts[sw.sid]["runs"], sw)
+        tr, idx = make_trace(len(traces) + 1, starts[sw.sid]["runs"], sw, kind_of(sw))
         traces.append(tr)
         idxs.append(idx)
-    accepted, allpreds = {}, {}
-    for v in ["ideal", "stalewal", "notatomic", "asis"]:
-        done, pred = validate_traces(o, traces, v, f"Trace_{v}")
-        accepted[v] = len(done)
-        allpreds[v] = (done, pred)
+    allpreds = validate_traces_all(o, traces, ORDER)
+    accepted = {v: len(allpreds[v][0]) for v in ORDER}
+    phase("tlc_trace")
     best = max(accepted.values())
-    tree = next(v for v in ["ideal", "stalewal", "notatomic", "asis"] if accepted[v] == best)
+    tree = next(v for v in ORDER if accepted[v] == best)
     done, preds = allpreds[tree]
     o.extra["traces_accepted_by_variant"] = accepted
     o.extra["tree_matches_model_variant"] = tree
@@ -753,65 +1036,81 @@ def run(tier: str) -> int:
     o.extra["traces_rejected"] = len(rejected)
     for tr in rejected[:3]:
         o.note_drift({"why": f"observed file-state sequence is not a behaviour of the model (variant {tree})",
-                      "flows": [r["flow"] for r in tr["runs"]], "obs": tr["runs"][-1]["obs"][:8]})
+                      "start": tr["start"], "flows": [r["flow"] for r in tr["runs"]], "obs": tr["runs"][-1]["obs"][:8]})
     # ---- judge every kill point
     reached = set()
     stats = {"ok": 0, "bad": 0, "nomatch": 0}
     for sw, idx, tr in zip(sweeps1 + sweeps2, idxs, traces):
         tid = tr["tid"]
+        kind = kind_of(sw)
+        ktabs = tabs[kind]
         chain_prefix = starts[sw.sid]["chain"]
         last_oi = max(idx.values())
         for k in sorted(sw.res):
             r = sw.res[k]
             chain_key = tuple(chain_prefix) + ((sw.flow, okey(r["obs"])),)
-            reached.add(chain_key)
+            reached.add((kind, chain_key))
             case = {"level": len(chain_key), "flows": "+".join([c[0] for c in chain_prefix] + [sw.flow]), "start": starts[sw.sid]["runs"],
                     "flow": sw.flow, "kill_line_index": k, "of": sw.K, "files": r["obs"]}
+            if kind != "base":
+                case.update(start_kind=kind, gen=sw.gen)
             if r["rc"] == 3:  # the flow raised: judged like a kill at that point
                 o.extra.setdefault("flows_that_raised", {}).setdefault(case["flows"], r["msg"])
             cands = list(preds.get((tid, idx[k]), []))
             if idx[k] == last_oi:  # last file state: the process may have finished
                 cands += preds.get((tid, "done"), [])
             if not cands:  # fall back to the generated tables (by observed state)
-                for v in [tree, "ideal", "stalewal", "notatomic", "asis"]:
-                    cands = tabs[v].get(chain_key, [])
+                for v in [tree] + ORDER:
+                    cands = ktabs.get(v, {}).get(chain_key, [])
                     if cands:
                         break
                 if cands:
                     o.note_drift({"case": case, "why": "file state matched through the generated table only"})
-            res = judge(o, case, r["reopen"], cands, tabs, chain_key, tree)
+            res = judge(o, case, r["reopen"], cands, ktabs, chain_key, tree)
             stats[res] += 1
             if res == "nomatch":
                 o.note_drift({"case": case, "why": "observed file state corresponds to no model state"})
                 real = r["reopen"]
                 if TORN in real["content"] or real["integrity"] != ["ok"]:
-                    o.violation(dict(case, reopen=real), "reopen does not yield a complete, sound database: " + str(real), cls="torn")
+                    o.violation(dict(case, reopen=real), "reopen does not yield a complete, sound database: " + str(real)
+                                + " = " + describe(real["content"], real.get("page_versions")) + side_files_note(r["obs"]), cls="torn")
                 else:
                     # the files are in no state of the model: judge by the position of the process alone
                     # (progress marks), against everything the statement allows at that position
-                    cc = coarse_candidates(tabs, chain_prefix, sw.flow, r.get("marks", 0))
+                    cc = coarse_candidates(ktabs, chain_prefix, sw.flow, r.get("marks", 0))
                     allowed = {tuple(sorted(c["expected"])) for c in cc}
                     stats["coarse"] = stats.get("coarse", 0) + 1
                     if allowed and tuple(pages_of(real["content"])) not in allowed:
                         o.violation(dict(case, reopen=real, progress_marks=r.get("marks"), allowed=[list(a) for a in sorted(allowed)]),
                                     f"a new Wtp(db_path) after the kill yields content {describe(real['content'])}; at this point of the flow "
                                     f"({r.get('marks')} library call(s) begun/returned) the statement allows only "
-                                    + " or ".join(describe(a) for a in sorted(allowed)), cls="coarse:" + case["flows"])
-            if okey(r["obs"]) != base_key:
+                                    + " or ".join(describe(a) for a in sorted(allowed)) + side_files_note(r["obs"]), cls="coarse:" + case["flows"])
+            if kind != "base":
+                o.shape((kind,) + chain_key)
+            elif okey(r["obs"]) != base_key:
                 o.shape(chain_key)
             # conformance of the file state after the reopen (outside the property: drift)
             if not r.get("same"):
-                rob = {okey(c["robs"]) for c in tabs[tree].get(chain_key, [])}
+                rob = {okey(c["robs"]) for c in ktabs.get(tree, {}).get(chain_key, [])}
                 if rob and okey(r["robs"]) not in rob:
                     o.note_drift({"case": case, "why": "file state after the reopen differs from the model", "got": r["robs"]})
     # ---- G coverage: which generated cases did a real kill point realise?
-    executed_prefix = {tuple(st["chain"]) for st in starts.values()}
-    want = [k for k in tabs[tree] if tuple(k[:-1]) in executed_prefix and (len(k) == 1 or k[-1][0] in flows2)]
-    hit = [k for k in want if k in reached]
+    executed_prefix = {tuple(st["chain"]) for st in starts.values() if st["kind"] == "base"}
+    want = [k for k in tabs["base"][tree] if tuple(k[:-1]) in executed_prefix and (len(k) == 1 or k[-1][0] in flows2)]
+    hit = [k for k in want if ("base", k) in reached]
     o.extra["generated_cases"] = {"variant": tree, "wanted": len(want), "realised_by_a_kill_point": len(hit)}
-    missing = [k for k in want if k not in reached]
+    missing = [k for k in want if ("base", k) not in reached]
     if missing:
         o.extra["generated_cases"]["unreached_example"] = [[f, json.loads(ok_)] for f, ok_ in missing[0]]
+    # journal dimension: generated cases of the sweeps that were executed (start kind, flow chain)
+    jexec = {(kind_of(sw), tuple(starts[sw.sid]["chain"]), sw.flow) for sw in sweeps1 + sweeps2 if kind_of(sw) != "base"}
+    jtree = tree if tree in JVARIANTS else "ideal"
+    jwant = [(kd, k) for kd in JKINDS for k in tabs[kd].get(jtree, {}) if (kd, tuple(k[:-1]), k[-1][0]) in jexec]
+    jhit = [x for x in jwant if x in reached]
+    o.extra["journal_dimension"]["generated_cases"] = {"variant": jtree, "wanted": len(jwant), "realised_by_a_kill_point": len(jhit)}
+    jmiss = [x for x in jwant if x not in reached]
+    if jmiss:
+        o.extra["journal_dimension"]["generated_cases"]["unreached_example"] = [jmiss[0][0]] + [[f, json.loads(ok_)] for f, ok_ in jmiss[0][1]]
     o.extra["judged"] = stats
     sw = sweeps1[0]
     ks = sorted(sw.res)
@@ -822,9 +1121,11 @@ def run(tier: str) -> int:
         ks = sorted(sw.res)
         o.sample({"start": starts[sw.sid]["chain"][0][0], "flow": sw.flow, "kill": ks[-3], "files": sw.res[ks[-3]]["obs"], "reopen": sw.res[ks[-3]]["reopen"]})
     o.exhaustive = thorough
+    phase("judge")
     # the pipeline around the backup (spec/Pipeline.tla, clause P2: the backup precedes every override)
     import pipeline
     common.with_engine(o, "pipeline", lambda: pipeline.extend(o, tier, "C11"))
+    phase("pipeline_engine")
     return o.finish()
 
 
@@ -842,6 +1143,12 @@ def replay(path: str) -> int:
         ov = write_overrides(root)
         build_base(root / "S0")
         d = root / "S0"
+        kind = case.get("start_kind", "base")
+        g1 = GENS[0]
+        if kind != "base":  # journal dimension: another kind of initial state, overwrite numbers of its own
+            d = build_jstarts(root, root / "S0")[kind]
+            g1 = JGENS[0]
+            print(f"initial state: {kind}: {sorted(p.name for p in d.iterdir())}")
         chain = list(case.get("start") or [])
         with Scratch("c11o-") as sc:
             # re-create the start state: kill the first flow where its file state equals the recorded one
@@ -849,9 +1156,9 @@ def replay(path: str) -> int:
                 f1 = chain[0]["flow"]
                 target = okey(chain[0]["obs"][-1])
                 _G.update(root=str(root), starts={0: {"dir": str(d)}}, ov=ov)
-                K = exec_tasks([(0, f1, GENS[0], 0, None)])[0]["lines"]
+                K = exec_tasks([(0, f1, g1, 0, None)])[0]["lines"]
                 for k in range(1, K + 2):
-                    r = exec_tasks([(0, f1, GENS[0], k, str(root / "S1"))])[0]
+                    r = exec_tasks([(0, f1, g1, k, str(root / "S1"))])[0]
                     if okey(r["obs"]) == target:
                         d = root / "S1"
                         print(f"start state: flow {f1} killed at line index {k}: {r['obs']}")
@@ -861,13 +1168,17 @@ def replay(path: str) -> int:
                     return 2
             work = root / "w"
             shutil.copytree(d, work)
-            rc, msg, _marks = fork_flow(case["flow"], work / DBNAME, ov[GENS[1] if chain else GENS[0]], case["kill_line_index"])
+            gen = case.get("gen") or (GENS[1] if chain else GENS[0])
+            rc, msg, _marks = fork_flow(case["flow"], work / DBNAME, ov_paths(ov, case["flow"], gen), case["kill_line_index"])
             print(f"flow {case['flow']} killed at line index {case['kill_line_index']} (exit {rc})")
             print("files:", {p.name: p.stat().st_size for p in sorted(work.iterdir())})
             print("observed:", observe(work, sc / "s"))
             re = fork_reopen(work / DBNAME)
-            print("reopen:", re, "=", describe(re["content"]))
-            print("demanded:", describe(case["expected"]))
+            print("reopen:", re, "=", describe(re["content"], re.get("page_versions")))
+            print("demanded:", describe(case["expected"]) if "expected" in case else case.get("allowed"))
+            if "expected" not in case:  # judged by progress marks only: the recorded set of allowed contents
+                okc = [sorted(a) for a in case.get("allowed", [])]
+                return 1 if (okc and pages_of(re["content"]) not in okc) or TORN in re["content"] or re["integrity"] != ["ok"] else 0
             return 1 if pages_of(re["content"]) != sorted(case["expected"]) or re["integrity"] != ["ok"] else 0
 
 
@@ -877,10 +1188,10 @@ def selftest() -> int:
     o = Outcome(PID, "quick")
     starts, sweeps1, _, _ = real_sweeps(False, None, flows1=["BOC"])
     sw = sweeps1[0]
-    tabs = gen_tables(o)
+    tabs = gen_tables(o, journal=False)["base"]
     tr, idx = make_trace(1, [], sw)
     tree = pred = None
-    for v in ["ideal", "stalewal", "notatomic", "asis"]:
+    for v in ORDER:
         done, pred = validate_traces(o, [tr], v, "st")
         if done:
             tree = v
